@@ -32,6 +32,22 @@ def _resolve_local(fa: FA, e, at_stmt):
     return e
 
 
+def size_forms(fa: FA, ins: ast.Assign):
+    """The inserted entry and the ways its size may be written at this insertion site:
+    the first argument of `_CacheEntry(...)` and `<entry local>.obj_size`.  Returns
+    (entry call or None, size expression or None, set of normalised spellings)."""
+    entry = _resolve_local(fa, ins.value, ins)
+    if not (isinstance(entry, ast.Call) and A.call_attr(entry) == "_CacheEntry"):
+        return None, None, set()
+    size_expr = A.arg_or_kw(entry, 0, "obj_size")
+    forms = set()
+    if size_expr is not None:
+        forms.add(A.norm(size_expr))
+    if isinstance(ins.value, ast.Name):
+        forms.add(ins.value.id + ".obj_size")
+    return entry, size_expr, forms
+
+
 def check_accounting(ck, cm: CacheModel):
     R = "C06.R1"
     ck.rule(R, "accounting pairing: every mutation of the resident map / recency queue is balanced by the "
@@ -121,10 +137,7 @@ def check_accounting(ck, cm: CacheModel):
                     if isinstance(t, ast.Subscript) and self_attr(t.value, cm.map):
                         k = A.norm(t.slice)
                         blk = _block_of(fa, st)
-                        entry = _resolve_local(fa, st.value, st)
-                        size_expr = None
-                        if isinstance(entry, ast.Call) and A.call_attr(entry) == "_CacheEntry":
-                            size_expr = A.arg_or_kw(entry, 0, "obj_size")
+                        entry, size_expr, forms = size_forms(fa, st)
                         ok = False
                         why = "no `%s += <size>` beside the insertion" % cm.counter
                         if size_expr is None:
@@ -134,7 +147,7 @@ def check_accounting(ck, cm: CacheModel):
                                 if isinstance(s2, ast.AugAssign) and self_attr(s2.target, cm.counter):
                                     if not isinstance(s2.op, ast.Add):
                                         why = "counter updated with %s at an insertion" % type(s2.op).__name__
-                                    elif A.norm(s2.value) != A.norm(size_expr):
+                                    elif A.norm(s2.value) not in forms:
                                         why = "counter grows by `%s` but the entry records `%s`" % (A.norm(s2.value), A.norm(size_expr))
                                     elif isinstance(size_expr, ast.Name) and not all(
                                         fa.df.same_defs(size_expr.id, a, b)
@@ -204,7 +217,7 @@ def check_accounting(ck, cm: CacheModel):
           "_CacheEntry does not store its obj_size parameter", A.loc(ce, ce.node))
 
 
-def _cmp_gt_budget(test, cm, size_name):
+def _cmp_gt_budget(test, cm, forms):
     """Recognise `<size> > self.budget` or `self.counter + <size> > self.budget` in a test.
     Returns 'oversize' / 'room' / None."""
     for atom in A.conj_atoms(test):
@@ -213,12 +226,12 @@ def _cmp_gt_budget(test, cm, size_name):
             if isinstance(op, ast.Lt):
                 l, r, op = r, l, ast.Gt()
             if isinstance(op, ast.Gt) and self_attr(r, cm.budget):
-                if isinstance(l, ast.Name) and l.id == size_name:
+                if A.norm(l) in forms:
                     return "oversize"
                 if isinstance(l, ast.BinOp) and isinstance(l.op, ast.Add):
                     parts = [l.left, l.right]
                     has_counter = any(self_attr(p, cm.counter) for p in parts)
-                    has_size = any(isinstance(p, ast.Name) and p.id == size_name for p in parts)
+                    has_size = any(A.norm(p) in forms for p in parts)
                     if has_counter and has_size:
                         return "room"
     return None
@@ -229,22 +242,27 @@ def check_budget(ck, cm: CacheModel):
     ck.rule(R, "budget: the insertion is dominated by the oversize guard and by an evict-until-fits loop whose "
                "negated test implies counter + size <= budget (or the queue is empty), with no write to "
                "counter/size/budget in between", 3)
-    fa = FA(ck, cm.insert)
-    ins = [s for s in fa.stmts(ast.Assign) if any(isinstance(t, ast.Subscript) and self_attr(t.value, cm.map) for t in s.targets)]
-    ins = fa.one(ins, "insertion into the resident map")
+    for m in cm.inserts:
+        fa = FA(ck, m)
+        sites = [s for s in fa.stmts(ast.Assign) if any(isinstance(t, ast.Subscript) and self_attr(t.value, cm.map) for t in s.targets)]
+        for ins in sites:
+            _check_budget_site(ck, cm, R, fa, ins)
+
+
+def _check_budget_site(ck, cm, R, fa, ins):
     ins_nodes = fa.some(fa.nodes(ins), "reachable insertion node")
-    entry = _resolve_local(fa, ins.value, ins)
-    ck.need(isinstance(entry, ast.Call) and A.call_attr(entry) == "_CacheEntry", "put: inserted value is not a _CacheEntry(...)")
-    size_expr = A.arg_or_kw(entry, 0, "obj_size")
-    ck.need(isinstance(size_expr, ast.Name), "put: entry size is not a local variable (unsupported idiom)")
-    size = size_expr.id
+    entry, size_expr, forms = size_forms(fa, ins)
+    ck.need(entry is not None, "%s: inserted value is not a _CacheEntry(...)" % fa.qual)
+    ck.need(size_expr is not None, "%s: cannot see the size the entry is built with" % fa.qual)
+    size = size_expr.id if isinstance(size_expr, ast.Name) else None
+    size_txt = A.norm(size_expr)
     cfg = fa.cfg
     # (a) oversize guard
     guards = []
     loops = []
     for n in cfg.nodes:
         if n.kind == "test":
-            kind = _cmp_gt_budget(n.ast, cm, size)
+            kind = _cmp_gt_budget(n.ast, cm, forms)
             st = fa.pm.get(n.ast)
             if kind == "oversize" and isinstance(st, ast.If):
                 guards.append(n.id)
@@ -258,8 +276,8 @@ def check_budget(ck, cm: CacheModel):
         if dom and not (set(ins_nodes) & viaT):
             okg = True
     ck.ob(R, fa.key(ins, "oversize-guard"), okg,
-          "`%s > %s` exits before the insertion on every path" % (size, cm.budget) if okg else
-          "no dominating `%s > self.%s` guard whose true-branch avoids the insertion: an oversize result can become resident" % (size, cm.budget),
+          "`%s > %s` exits before the insertion on every path" % (size_txt, cm.budget) if okg else
+          "no dominating `%s > self.%s` guard whose true-branch avoids the insertion: an oversize result can become resident" % (size_txt, cm.budget),
           fa.where(ins))
     # (b) evict-until-fits loop
     okl = False
@@ -269,13 +287,13 @@ def check_budget(ck, cm: CacheModel):
             okl = True
             loop_node = w
     ck.ob(R, fa.key(ins, "room-loop"), okl,
-          "evict-until-fits loop `while ... %s + %s > %s` dominates the insertion" % (cm.counter, size, cm.budget) if okl else
-          "no dominating loop on `self.%s + %s > self.%s`: the budget can be exceeded" % (cm.counter, size, cm.budget),
+          "evict-until-fits loop `while ... %s + %s > %s` dominates the insertion" % (cm.counter, size_txt, cm.budget) if okl else
+          "no dominating loop on `self.%s + %s > self.%s`: the budget can be exceeded" % (cm.counter, size_txt, cm.budget),
           fa.where(ins))
     if loop_node is not None:
         wst = fa.pm.get(cfg.node(loop_node).ast)
         # the other conjunct may only be a queue-non-empty test
-        others = [a for a in A.conj_atoms(cfg.node(loop_node).ast) if _cmp_gt_budget(a, cm, size) is None]
+        others = [a for a in A.conj_atoms(cfg.node(loop_node).ast) if _cmp_gt_budget(a, cm, forms) is None]
         q = "self.%s" % cm.queue
         ok_other = all(A.norm(a) in ("len(%s) > 0" % q, "len(%s)" % q, q, "len(%s) != 0" % q, "len(%s) >= 1" % q, "0 < len(%s)" % q) for a in others)
         ck.ob(R, fa.key(wst, "loop-test"), ok_other,
@@ -295,11 +313,11 @@ def check_budget(ck, cm: CacheModel):
         for i in after:
             n = cfg.node(i)
             for d in fa.df.gen.get(i, []):
-                if d.name in (size, "self." + cm.counter, "self." + cm.budget):
+                if d.name in ((size,) if size else ()) + ("self." + cm.counter, "self." + cm.budget):
                     bad.append(n)
             if n.ast is not None:
                 for c in A.calls_in(n.ast) if n.kind == "stmt" else []:
-                    if cm.is_self_call(c, cm.evict) or cm.is_self_call(c, cm.insert):
+                    if cm.is_self_call(c, cm.evict) or any(cm.is_self_call(c, mi) for mi in cm.inserts):
                         bad.append(n)
         # only nodes that can still reach the insertion matter
         bad = [n for n in bad if set(ins_nodes) & cfg.reach([n.id], include_start=False)]
@@ -309,10 +327,15 @@ def check_budget(ck, cm: CacheModel):
               fa.where(ins))
     # the size variable is the estimate of the very object that is stored
     val = entry.args[2] if len(entry.args) > 2 else A.kwarg(entry, "value")
-    size_defs = []
-    for i in ins_nodes:
-        size_defs += fa.df.reaching(i, size)
-    ok_est = bool(size_defs) and all(d.value is not None and isinstance(d.value, ast.Call) and "estimate" in (A.call_attr(d.value) or "") for d in size_defs)
+    def _is_est(v):
+        return v is not None and isinstance(v, ast.Call) and "estimate" in (A.call_attr(v) or "")
+    if size is not None:
+        size_defs = []
+        for i in ins_nodes:
+            size_defs += fa.df.reaching(i, size)
+        ok_est = bool(size_defs) and all(_is_est(d.value) for d in size_defs)
+    else:
+        ok_est = _is_est(size_expr)
     ck.ob(R, fa.key(ins, "size-is-estimate"), ok_est,
           "the accounted size is the estimate computed for this put" if ok_est else
           "the accounted size does not come from the size estimator", fa.where(ins))
@@ -434,9 +457,9 @@ def check_forget(ck, cm: CacheModel, rule="C06.R5"):
 
 def check(ck):
     cm = CacheModel(ck)
-    check_accounting(ck, cm)
-    check_budget(ck, cm)
-    check_lru(ck, cm)
-    check_queue_unbounded(ck, cm, "C06.R3")
-    check_replace_on_put(ck, cm, "C06.R4")
-    check_forget(ck, cm, "C06.R5")
+    ck.run(check_accounting, ck, cm)
+    ck.run(check_budget, ck, cm)
+    ck.run(check_lru, ck, cm)
+    ck.run(check_queue_unbounded, ck, cm, "C06.R3")
+    ck.run(check_replace_on_put, ck, cm, "C06.R4")
+    ck.run(check_forget, ck, cm, "C06.R5")
